@@ -121,9 +121,11 @@ func spec_advall(ips [][][sha256.Size]byte, terms [][sha256.Size]byte, start uin
 //@   assigns nothing
 //@   ensures same: result == htree.VerifyInclusion(proof, entryDigest, root)
 
-// innerHash: safety only. NOT panic-free: the explicit panic for Version not in {0, 1} is reachable (genuine defect,
-// see notes); the obligation safe:...innerHash:panic stays in place as an expected failure.
+// innerHash: safety only. It panics for a header version it cannot hash: callers must have validated the version
+// (the verifiers do since the fix "VerifyDualProof rejects unknown header versions"; the tx-log reader rejects
+// unknown versions while parsing).
 //@ func (*TxHeader).innerHash
+//@   requires ver: hdr.Version == 0 || hdr.Version == 1
 //@   assigns nothing
 
 // VerifyDualProof: one labelled postcondition per step of docs/security/PROOFS.md (steps 3-8) in the direction
@@ -152,6 +154,8 @@ func spec_advall(ips [][][sha256.Size]byte, terms [][sha256.Size]byte, start uin
 //@   ensures strong: proof != nil && proof.SourceTxHeader != nil && proof.TargetTxHeader != nil
 //@        && proof.SourceTxHeader.ID == sourceTxID && proof.TargetTxHeader.ID == targetTxID
 //@        && sourceTxID != 0 && sourceTxID <= targetTxID
+//@        && (proof.SourceTxHeader.Version == 0 || proof.SourceTxHeader.Version == 1)
+//@        && (proof.TargetTxHeader.Version == 0 || proof.TargetTxHeader.Version == 1)
 //@        && proof.SourceTxHeader.Alh() == sourceAlh && proof.TargetTxHeader.Alh() == targetAlh
 //@        && (sourceTxID < proof.TargetTxHeader.BlTxID ==>
 //@            ahtree.VerifyInclusion(proof.InclusionProof, sourceTxID, proof.TargetTxHeader.BlTxID, leafFor(sourceAlh), proof.TargetTxHeader.BlRoot))
@@ -186,6 +190,8 @@ func spec_advall(ips [][][sha256.Size]byte, terms [][sha256.Size]byte, start uin
 //@   ensures strong: proof != nil && proof.SourceTxHeader != nil && proof.TargetTxHeader != nil
 //@        && proof.SourceTxHeader.ID == sourceTxID && proof.TargetTxHeader.ID == targetTxID
 //@        && sourceTxID != 0 && sourceTxID <= targetTxID
+//@        && (proof.SourceTxHeader.Version == 0 || proof.SourceTxHeader.Version == 1)
+//@        && (proof.TargetTxHeader.Version == 0 || proof.TargetTxHeader.Version == 1)
 //@        && proof.SourceTxHeader.Alh() == sourceAlh && proof.TargetTxHeader.Alh() == targetAlh
 //@        && proof.SourceTxHeader.BlTxID == sourceTxID-1 && proof.TargetTxHeader.BlTxID == targetTxID-1
 //@        && (sourceTxID != targetTxID ==>
